@@ -587,7 +587,9 @@ SPEC["C04"] = {
    Tree level (sieve/RenderFacts.v, sieve/PrintTree.v), for every script derivable in the grammar wf_cmds of
    CompleteTree whose tree is in CANONICAL FORM [canon_cmd] — command names spelled as in their definitions,
    arguments written in definition order with each optional slot at most once, values that are quoted
-   strings, numbers, tags or non-empty lists of quoted strings (no `text:` blocks):
+   strings, multi-line (`text:`) strings, numbers, tags or non-empty lists of quoted strings.  A multi-line
+   string ends with its own line feed, which the layout carries into the white space before the next token
+   ([carry_of], [args_carry], [tcarry]) exactly as Command.tosieve does:
      (d) the lexer inverts rendering: well-formed tokens written with any white space between them (none where
          two tokens cannot merge) are lexed back as exactly those tokens (C04_lex_render);
      (e) the text the model of Command.tosieve prints for such a tree IS the layout of the script's tokens
@@ -605,8 +607,8 @@ SPEC["C04"] = {
          same text (C04_print_parse_general).  Table conditions [tbl_ok] (names consistent and identifiers,
          argument names distinct, no slot taking both numbers and strings) are re-checked by computation on
          the tables regenerated from /repo.
-   Not proved: multi-line (`text:`) values in the printing theorems, the commands outside wf_def (known
-   findings).  The printer model is tied to commands.py by comparing the printed text of every accepted
+   Not proved: the commands outside wf_def (known findings); a multi-line string inside a string LIST
+   (the lexer accepts it there, the grammar of CompleteTree does not generate it).  The printer model is tied to commands.py by comparing the printed text of every accepted
    input, and the round trip itself (print, re-parse, compare trees as maps, print again, compare text) is
    evaluated on the implementation over enumerations, generated
    scripts, layouts, mutants, repeated tags and a quoting-edge value generator.""",
@@ -631,6 +633,8 @@ SPEC["C04"] = {
          "tree level, whole grammar, any argument order: parse (print tree) has the same content as tree and prints to the same text"),
         ("C04_example_general", "PrintExamples.ex2_roundtrip",
          "non-vacuity: a script with upper-case names, tags out of order and a repeated tag"),
+        ("C04_example_multiline", "PrintExamples.ex_ml_roundtrip",
+         "non-vacuity: a script whose value is a `text:` block (the line feed after the block is carried into the layout)"),
         ("C04_example_canonical", "PrintExamples.ex_canon", "non-vacuity on the tables generated from /repo: the tree of the example script (require, if/elsif/else, anyof, not, nested blocks, tags with parameters, numbers, lists) is canonical"),
         ("C04_example_roundtrip", "PrintExamples.ex_roundtrip", "... and the theorem gives its round trip"),
         ("raw", r'''(* non-vacuity: hostile contents are exact string tokens; and the model round trip on a concrete script *)
